@@ -157,10 +157,7 @@ func (t *ServerTransport) close(err error) {
 		defer t.callbacks.OnClose(t.Name(), err)
 
 		if t.conn != nil {
-			// Close performs the WebSocket close handshake and waits up to 5 seconds for the
-			// peer's reply. Do not make the caller (and the socket's OnClose) wait for a peer
-			// that may be gone: that is exactly the case after a ping timeout.
-			go t.conn.Close(websocket.StatusNormalClosure, "")
+			t.conn.Close(websocket.StatusNormalClosure, "")
 		}
 	})
 }
